@@ -117,6 +117,26 @@ fn display_impl(kind: u64, v: Val) -> Option<String> {
     }).flatten()
 }
 
+/// serde string form (SerializeDisplay / DeserializeFromStr) of the types that derive it:
+/// (JSON text, value deserialised from that text)
+fn serde_impl(kind: u64, v: Val) -> Option<(String, Option<Val>)> {
+    fn go<T: serde::Serialize + serde::de::DeserializeOwned>(t: T, f: impl Fn(&T) -> Val) -> Option<(String, Option<Val>)> {
+        let j = serde_json::to_string(&t).ok()?;
+        let back = serde_json::from_str::<T>(&j).ok().map(|x| f(&x));
+        Some((j, back))
+    }
+    catch(move || match (kind, v) {
+        (K_ISD, Val::Num(n)) => go(Isd(n as u16), |v| Val::Num(v.0 as u64)),
+        (K_ASN, Val::Num(n)) => go(Asn(n), |v| Val::Num(v.0)),
+        (K_IA, Val::Num(n)) => go(IsdAsn(n), |v| Val::Num(v.0)),
+        (K_HOST, Val::Host(h)) => go(to_host(h), |v| Val::Host(host_of(*v))),
+        (K_ADDR, Val::Addr(ia, h)) => go(ScionAddr::new(IsdAsn(ia), to_host(h)), |v| addr_val(*v)),
+        (K_IPADDR, Val::Addr(ia, h)) => to_host(h).ip().and_then(|ip| go(ScionIpAddr::new(IsdAsn(ia), ip), |v| addr_val(v.into_scion_addr()))),
+        (K_SOCK, Val::Sock(ia, h, p)) => go(ScionSocketAddr::new(IsdAsn(ia), to_host(h), p), |v| sock_val(*v)),
+        _ => None,
+    }).flatten()
+}
+
 // ---------- Coq printers ----------
 /// a byte string as `(bs len value)`: big-endian value in decimal (one numeral instead of a
 /// list literal: the case files parse several times faster)
@@ -393,7 +413,7 @@ fn main() {
     let thorough = std::env::var("VERIF_TIER").map(|t| t == "thorough").unwrap_or(false);
     let mut rng = Rng::new(seed);
     let pre = "From Sci Require Import Text.Cases. Open Scope N_scope.";
-    let mut sh = Shards::new(&out, pre, "tcase", "verdicts", 160);
+    let mut sh = Shards::new(&out, pre, "tcase", "verdicts", 200);
     let mut sum = Summary::default();
     let mut seen = std::collections::HashSet::new();
     let mut cases: Vec<Case> = vec![];
@@ -450,10 +470,19 @@ fn main() {
     }
     let n_txt = n / 4;
     gen_txt_cases(&mut rng, n_txt, thorough, &mut cases);
+    let mut serde_bad: Vec<String> = vec![];
     for mut c in cases {
         if let Some(v) = c.val {
             match display_impl(c.kind, v) {
-                Some(d) => c.input = d,
+                Some(d) => {
+                    // the serde string form must be the quoted Display form and deserialise like FromStr
+                    if let Some((j, back)) = serde_impl(c.kind, v) {
+                        let fs = match parse_impl(c.kind, &d) { Res::Ok(x, _) => Some(x), _ => None };
+                        if j == format!("\"{}\"", d) && back == fs { sum.count("serde.agree"); }
+                        else { sum.count("serde.DISAGREE"); serde_bad.push(format!("{} {:?}: json {} back {:?} from_str {:?}", KIND_NAMES[c.kind as usize], v, j, back, fs)); }
+                    }
+                    c.input = d
+                }
                 None => { // Display itself panicked: report as a parse case on the empty string with class display-panic
                     c.input = String::new(); c.class = "display-panic"; }
             }
@@ -461,6 +490,7 @@ fn main() {
         emit(&c, &mut sh, &mut sum, &mut seen);
     }
     sh.flush();
+    if !serde_bad.is_empty() { eprintln!("serde string form disagrees with Display/FromStr:\n{}", serde_bad.join("\n")); std::process::exit(3); }
     let distinct = *sum.dist.get("distinct_nontrivial").unwrap_or(&0) as usize;
     sum.write(&out, sh.total, distinct);
 }
